@@ -291,6 +291,18 @@ def o_subscribe_many(ad, a, b, c):
     return [("subscribe", ad, 2, 126 + (a * 3 + b) % 135, c)]
 
 
+def o_late_connack(ad, a, b, c):
+    """a new connection whose CONNACK arrives late: publishes made meanwhile see their retry timers expire
+    while the client is still connecting"""
+    ops = [("lose", ad, a % 3), ("build", ad), ("handlers", ad, 7), ("window", ad, 1 + b % 4),
+           ("connect", ad, 60, (a >> 2) & 1, 0), ("publish", ad, 1 + (c & 1), 0, 0, 0, 0)]
+    if c & 2:
+        ops.append(("publish", ad, 1 + ((c >> 2) & 1), 0, 0, 0, 0))
+    ops.append(("fire", 1 + (c >> 4) % 3))
+    ops.append(("rx", ad, "CONNACK", 0, b & 1))
+    return ops
+
+
 class Table(object):
     """cumulative weight table over 256 slots"""
 
